@@ -44,8 +44,8 @@ claimed = {
    "Unbounded deductive proof of the absence of run-time panics: every index, slice-bounds, nil-dereference, nil-map write, type-assertion, division, explicit-panic and library-precondition obligation of (a) the 31 API operations with sendto and the reflective codec inlined (reply bytes and their length symbolic), (b) Unmarshal of an arbitrary byte string into each of the 65 message types (lemmaDecode<T>), (c) every other source function of the five packages in a zero-annotation sweep (String/MarshalJSON methods included) - the dispatchers, GetDevices, the driver's socket methods and the JSON decoders of Weekdays / Segments (nil target maps) included - except the functions listed with reasons under sweep_not_covered in the evidence (the reflective codec on a statically unknown type - it is executed in place for every concrete type -, a few string tables of request-only enums). New code: see DESIGN.md section 4 C04 (sweep baseline).",
    BASE_NOTE + "; a method is called on a non-nil receiver; library functions do not panic when their assumed preconditions hold; Must* constructors panic by design"),
  "C05": ("proof", "DESIGN.md section 4 C05",
-   "Unbounded deductive proof per message type: for each of the 65 message structs T the lemma function lemmaRoundTrip<T>(v) = Unmarshal(Marshal(v)) is verified with the reflective codec executed on its real body - decoding succeeds for every in-domain v and returns its integer, boolean, PIN, HH:mm, IPv4, address:port, MAC and version fields unchanged, date/time fields are written and read at the same offset in the same BCD form; lemmaDecode<T> shows that only 64 bytes with T's protocol id and function code are accepted; the two dispatchers UnmarshalRequest / UnmarshalResponse are verified by a case split over the literal keys of their tables, the decoder call of each case summarised by the contract of lemmaDecode<T> (checked to be literally that call on a zero T): 64 bytes, protocol id 0x17, the type whose own MsgType tag carries the function code and only that type, unknown codes rejected; the per-type round trips of Date, DateTime, HHmm, PIN, SerialNumber, Version are lemma functions over the codec contracts with an uninterpreted zone offset (every time zone; zero values included).",
-   BASE_NOTE + "; independence from non-field bytes is not stated as a separate lemma (see evidence not_decided)"),
+   "Unbounded deductive proof per message type: for each of the 65 message structs T the lemma function lemmaRoundTrip<T>(v) = Unmarshal(Marshal(v)) is verified with the reflective codec executed on its real body - decoding succeeds for every in-domain v and returns its integer, boolean, PIN, HH:mm, IPv4, address:port, MAC and version fields unchanged, date/time fields are written and read at the same offset in the same BCD form; lemmaDecode<T> shows that only 64 bytes with T's protocol id and function code are accepted and that every decoded field is a function of the bytes at its own offset only (so the value does not depend on bytes that belong to no field); the two dispatchers UnmarshalRequest / UnmarshalResponse are verified by a case split over the literal keys of their tables, the decoder call of each case summarised by the contract of lemmaDecode<T> (checked to be literally that call on a zero T): 64 bytes, protocol id 0x17, the type whose own MsgType tag carries the function code and only that type, unknown codes rejected; the per-type round trips of Date, DateTime, HHmm, PIN, SerialNumber, Version are lemma functions over the codec contracts with an uninterpreted zone offset (every time zone; zero values included).",
+   BASE_NOTE + "; independence from non-field bytes: lemmaDecode<T>#fields gives every decoded field as a function of the bytes at its own offset"),
  "C13": ("proof", "DESIGN.md section 4 C13",
    "Unbounded deductive proof relative to a model of package time in which the zone offset is an uninterpreted function (all zones at once): every date producer (ToDate, ParseDate, the wire decoders of Date, DateTime, SystemDate, SystemTime) has a `civil` postcondition - if the civil day / date-time exists in the process-local zone the result has exactly the requested fields - and the encoders write exactly the civil fields. On the current tree the date clauses are provable only under the additional hypothesis that local midnight exists on that day: the missing-midnight case is a genuine defect recorded as four known findings (known_findings.txt), each replayed on the real code.",
    BASE_NOTE + "; the time model (spec/time.spec: time.Date algorithm abs = C - off(C - off(C)), documented guarantee when the civil time exists, calendar bijection) is assumed and conformance-tested (bin/timeconf, thorough tier); the closures that recombine the system date and time of a status (GetStatus$1, Listen$1) are under contract"),
